@@ -63,7 +63,7 @@ def _first_diff(fa, fb):
 
 def run(drv, pid, tier, seed, configs):
     """main pass (all windows of the tier) + 'large' pass (constant-time multiscalar at >= 190 terms)."""
-    configs = configs or drv.ALLCFG
+    configs = configs or (drv.ALLCFG + ["386"] if tier == "thorough" else drv.ALLCFG)
     if tier == "quick":
         lcfg = [c for c in configs if c == "avx2"] or configs[:1]
         lsig = [0, 1]
